@@ -53,6 +53,18 @@ def batch(rng, tier):
         progs.append("-" * d + "1")
         progs.append("!" * d + "ja")
         progs.append("als ja { " * min(d, 400) + "1" + " }" * min(d, 400))
+    # values DERIVED by the interpreter (a character read out of a text, an element, the result of a builtin, a concatenation, a
+    # literal) are fresh objects of the evaluation that produced them: changing one IN PLACE must not change what any later
+    # evaluation — in this process, on this thread — gets when it derives "the same" value (an interned / cached object would)
+    producers = ['"hallo"[0]', '"hallo"[-1]', '"kaas"[1]', 'type(1)', 'type("t")', 'string(12)', 'string(1.5)', '"a" + "b"', '"lit"', 'string(ja)',
+                 '"x"[0]', 'string([1])', 'type([])', '"hallo"[0] + ""']
+    for k in range(3):
+        for pr in producers:
+            progs.append('stel c = %s; c[0] = "Z"; c' % pr)
+            progs.append('stel c = %s; c[0] = "ZZ"; [c, lengte(c)]' % pr)
+            progs.append(pr)
+            progs.append('[lengte(%s), %s == %s, %s]' % (pr, pr, pr, pr))
+            progs.append('stel w = "hallo kaas lit"; stel i = 0; stel n = 0; zolang i < lengte(w) { als w[i] == "a" { n += 1 }; i += 1 }; [n, w[0], w[7]]')
     # WHERE THE CODE LIES must not matter: the same construct after n padding statements, for every n, so that its jump targets,
     # function entries and return addresses sweep every byte offset (both parities) of the first two KiB — a sanity check,
     # placeholder or table keyed on an absolute offset that exists in one build profile only (debug assertions, overflow checks)
